@@ -29,7 +29,8 @@ async def one_tunnel(out, chain, bank, seed, uid, lk, ck, shape, live):
     t0 = now()
     try:
         conn, ok, detail = await chain.open_tunnel(lk, ck, shape["host"], early=early, bank=2 if origin_first else 1, split=shape.get("split"),
-                                                   rcvbuf=65536 if shape.get("backpressure") == "s2c" else None)
+                                                   rcvbuf=65536 if shape.get("backpressure") == "s2c" else None,
+                                                   headers=[("X-Pad-%d" % i, "v%d" % i) for i in range(shape.get("n_headers", 0))])
     except Exception as e:
         if ck == "s4" and shape["host"] == "ipv6" and isinstance(e, (ConnectionError, asyncio.IncompleteReadError)):
             # the legitimate refusal (IPv6 over SOCKS4) of a request that had payload glued to it: the proxy closes with unread
@@ -268,6 +269,15 @@ async def main(args):
                     uid += 1
                     batch.append((uid, lk, ck, sh))
                 await asyncio.gather(*[one_tunnel(out, chain, bank, args.seed, u, lk, ck, sh, live) for (u, lk, ck, sh) in batch])
+            # CONNECT requests with many header fields (around and beyond any plausible limit) and payload glued to them: whatever
+            # the parser does with the head, the tunnel starts exactly behind the blank line
+            batch = []
+            for nh in (30, 62, 63, 64, 65, 100, 300):
+                for lk2, ck2 in (("http", "direct"), ("quic", "h"), ("https", "direct")):
+                    uid += 1
+                    batch.append((uid, lk2, ck2, dict(c2s=4000, s2c=4000, first="client", early=2000, wsz=4096, wpause=0, slow_reader=False, slow_client_reader=False,
+                                                       host="ipv4", halfclose=True, read_before_write=False, split=None, io=io_name, cls="many-headers-%d" % nh, n_headers=nh)))
+            await asyncio.gather(*[one_tunnel(out, chain, bank, args.seed, u, lk, ck, sh, live) for (u, lk, ck, sh) in batch])
             # the origin finishes (FIN) right after a short answer while the client still uploads for a while: every uploaded byte
             # must still arrive (a relay that stops when one direction ends loses them)
             batch = []
